@@ -433,7 +433,7 @@ fn slice_eq(x: &Set, y: &Set, v: u8) -> bool {
     }
 }
 
-//@ harness props=C02,C03,C08,C09,C20 variants=NM+2 bounds=quick:small,thorough:base covers=3,4,5 name=Orswot L_merge: merge(SPEC(U,K1), SPEC(U,K2)) == SPEC(U, K1 u K2) for all knowledge pairs (incl. pending removes, stale and equal states); one output slice per variant
+//@ harness props=C02,C03,C04,C08,C09,C20 variants=NM+2 bounds=quick:small,thorough:small covers=3,4,5 name=Orswot L_merge: merge(SPEC(U,K1), SPEC(U,K2)) == SPEC(U, K1 u K2) for all knowledge pairs (incl. pending removes, stale and equal states); one output slice per variant
 #[no_mangle]
 pub fn h_orswot_merge(inp: &Inp) -> u8 {
     let mut i = In::new(inp);
